@@ -84,6 +84,6 @@ pub fn registry() -> Vec<(&'static str, fn())> {
     #[cfg(feature = "codecs")]
     { v.extend_from_slice(c16::LIST); v.extend_from_slice(c17::LIST); }
     #[cfg(all(not(kani), feature = "codecs"))]
-    { v.extend_from_slice(c17n::LIST); v.extend_from_slice(c16::native::LIST); }
+    { v.extend_from_slice(c17n::LIST); v.extend_from_slice(c16::native::LIST); v.extend_from_slice(c17::native::LIST); }
     v
 }
